@@ -308,6 +308,31 @@ def rule_f(ctx):
         ctx.ob("id-is-index-of-name", ok,
                "ModelId must be model_names.len() read before the single push(name) on the same vector", [s] + pushes)
         if ok:
+            # nothing that can register other models (anything reaching the same vector) may run between len() and push()
+            tainted_roots = set(vec_or)
+            between = []
+            for c in b.calls():
+                if c.key() in (lens[0].key(), pushes[0].key()):
+                    continue
+                if not (b.can_reach(lens[0], c) and b.can_reach(c, pushes[0])):
+                    continue
+                for a in c.args():
+                    ao = b.origins(a, c)
+                    hit = any(x in tainted_roots for x in ao)
+                    # values built from the vector (e.g. a BuildContext holding &mut model_names)
+                    for x in ao:
+                        for cc in origin_calls(x):
+                            cs2 = Site(b, cc[1], TERM)
+                            dty = cs2.node.get("dty", "")
+                            if not ("&" in dty or "<'" in dty):
+                                continue  # a plain value (e.g. the length) cannot alias the table
+                            if any(y in tainted_roots for a2 in cs2.args() for y in b.origins(a2, cs2)):
+                                hit = True
+                    if hit:
+                        between.append(c)
+            ctx.ob("no-registration-between-len-and-push", not between,
+                   "no call that can reach the model-name table (e.g. building sub-models) may occur between reading the index and pushing the name", between or [lens[0], pushes[0]])
+        if ok:
             name_or = b.origins(pushes[0].args()[1], pushes[0])
             cxs = list(b.calls("model::context::Context::new$"))
             ok2 = bool(cxs) and all(b.origins(c.args()[0], c) == name_or for c in cxs)
